@@ -172,7 +172,7 @@ def run(ctx):
             ctx.rng.shuffle(inputs)
             inputs = inputs[:14]
         for k in range(ctx.n(80, 600)):
-            t, info = gen_inputs.multi_sim_input(ctx.rng, nsims=ctx.rng.randint(2, 5), allow_redefine=True, no_simno=True)
+            t, info = gen_inputs.multi_sim_input(ctx.rng, nsims=ctx.rng.randint(2, 5), allow_redefine=True, no_simno=True, rich=(k % 2 == 0))
             if ctx.rng.random() < 0.6:
                 # a first simulation that defines persistent options/definitions (KNOBS, PRINT, INCREMENTAL_REACTIONS, RATES, CALCULATE_VALUES, database additions ...)
                 import props.c07 as c07
